@@ -64,6 +64,34 @@ def impl_batch(jobs):
     return [x for r in res for x in r]
 
 
+def _opt_child():
+    """child interpreter (started with -O): evaluates the jobs given on stdin, prints the answers as JSON"""
+    import json
+    import sys
+    jobs = [tuple(j) for j in json.load(sys.stdin)]
+    jobs = [(lg, succ, labs, _tup(tree), entry) for lg, succ, labs, tree, entry in jobs]
+    print(json.dumps(impl_chunk(jobs)))
+
+
+def _tup(t):
+    return tuple(_tup(x) for x in t) if isinstance(t, list) else t
+
+
+def optimized_interpreter_answers(jobs):
+    """the same jobs in a fresh interpreter run with -O (assert statements and __debug__ blocks are stripped)"""
+    import json
+    import subprocess
+    import sys
+    here = os.path.dirname(os.path.dirname(os.path.abspath(__file__)))
+    p = subprocess.run([sys.executable, '-O', '-c',
+                        'import sys; sys.path.insert(0, %r); from checks import mc_common; mc_common._opt_child()' % here],
+                       input=json.dumps(jobs), stdout=subprocess.PIPE, stderr=subprocess.PIPE, text=True,
+                       env=dict(os.environ, PYTHONPATH=os.pathsep.join(x for x in sys.path if x)))
+    if p.returncode != 0:
+        return None, p.stderr[-400:]
+    return json.loads(p.stdout.strip().splitlines()[-1]), ''
+
+
 def norm(ans):
     ans = ans.strip()
     if ans.startswith('OK'):
@@ -155,6 +183,24 @@ def run_cases(res, logic, cases, what, known=None):
         d = tree_depth(t)
         depths[d] = depths.get(d, 0) + 1
         sizes[K.n] = sizes.get(K.n, 0) + 1
+    # environment: the same calls in an interpreter started with -O must give the same answers
+    step = max(1, len(jobs) // 60)
+    opairs = list(zip(jobs[::step], impl[::step]))[:80]
+    ojobs = [j for j, _ in opairs]
+    oans, oerr = optimized_interpreter_answers(ojobs)
+    opt_diff = 0
+    if oans is None:
+        res.violation('%s: the calls could not be repeated under python -O: %s' % (what, oerr), {'stderr': oerr})
+    else:
+        for (j, a0), a1 in zip(opairs, oans):
+            if norm(a0) != norm(a1):
+                opt_diff += 1
+                if opt_diff <= 2:
+                    res.violation('%s: %s.modelcheck(%s) = %s, but %s when the interpreter runs with -O (python -O / '
+                                  'PYTHONOPTIMIZE=1)' % (what, logic, tree_str(j[3]), norm(a0), norm(a1)),
+                                  {'logic': logic, 'structure': KS(j[1], j[2]).describe(), 'formula': tree_str(j[3]),
+                                   'formula_sexpr': sexpr(j[3]), 'entry': j[4], 'impl': norm(a0), 'impl_under_O': norm(a1),
+                                   'history': 'run the same call with python -O'})
     for (K, t, e, a, m) in bad[:3]:
         def differs(K2, t2, _e=e):
             a2 = norm(impl_one((logic, K2.succ, K2.labs, t2, _e)))
@@ -176,5 +222,6 @@ def run_cases(res, logic, cases, what, known=None):
                        'entry': e, 'impl': a, 'model': m, 'reference': ref})
     return {'evaluations': len(cases), 'nonconstant_answers': nonconst, 'distinct_nontrivial': len(distinct),
             'operators': ops, 'depths': depths, 'sizes': sizes, 'error_kinds': errs, 'disagreements': len(bad),
+            'repeated_under_python_O': len(ojobs), 'answers_changed_under_python_O': opt_diff,
             'samples': [{'structure': K.describe(), 'formula': tree_str(t), 'entry': e, 'impl': a, 'model': m}
                         for (K, t, e), a, m in list(zip(cases, impl, model))[:: max(1, len(cases) // 3)][:4]]}
